@@ -323,6 +323,13 @@ LINE_VIOLATIONS = [
     ("offset-is-flag", "d0", "  fl [+1]  UInt  d0\n  8 [+1]  UInt:8[]  d1"),
     ("size-is-enum", "d0", "  9 [+1]  UInt  d0\n  8 [+e]  UInt:8[]  d1"),
     ("array-length-is-boolean", "arr", "  300 [+2]  UInt:8[a == 2]  arr"),
+    ("condition-is-integer-on-virtual-only-block", "c0", "  if a:\n    let c0 = 1"),
+    ("condition-is-enum-on-virtual-only-block", "c0", "  if e:\n    let c0 = true"),
+    ("inner-array-dimension-boolean", "arr", "  300 [+8]  UInt:8[true][4]  arr"),
+    ("inner-array-dimension-comparison", "arr", "  300 [+8]  UInt:8[2 > 1][4]  arr"),
+    ("inner-array-dimension-enum", "arr", "  300 [+8]  UInt:8[Ee.BB][4]  arr"),
+    ("middle-array-dimension-boolean", "arr", "  300 [+8]  UInt:8[2][false || true][4]  arr"),
+    ("outer-array-dimension-enum-of-two", "arr", "  300 [+8]  UInt:8[4][Ee.BB]  arr"),
     ("ordering-on-booleans", "vb", "  let vb = fl < fm"),
     ("arithmetic-on-enum", "vi", "  let vi = e + 1"),
     ("arithmetic-on-boolean", "vi", "  let vi = fl * 2"),
